@@ -51,6 +51,7 @@ def judge(binary, lines, timeout=600, events=False, shards=None, cluster=False):
         env["VERIF_CLUSTER_PATH"] = "1"
     if shards:
         env["VERIF_SHARDS"] = str(shards)
+    timeout = max(timeout, 900 + len(lines) // 150)      # the thorough enumerations are millions of lines; the machine may be shared
     obs, crashes, se = core.run_harness_resilient(binary, "exec", lines, timeout=timeout, env=env)
     d = core.run_driver(obs)
     return obs, d, crashes, se
